@@ -496,7 +496,7 @@ func kf03aFile(events []crashfs.Event, k int) string {
 	}
 	for path, ai := range last {
 		a := &events[ai]
-		if a.Kind != crashfs.EvWrite || a.Off < 37024 || len(a.Data) == 24 {
+		if a.Kind != crashfs.EvWrite || a.Off < 37024 {
 			continue
 		}
 		var b *crashfs.Event
@@ -506,7 +506,8 @@ func kf03aFile(events []crashfs.Event, k int) string {
 				break
 			}
 		}
-		if b == nil || b.Kind != crashfs.EvWrite || len(b.Data) != 24 {
+		// (the data area lies behind the index area: a compressed single record can itself be 24 bytes long)
+		if b == nil || b.Kind != crashfs.EvWrite || len(b.Data) != 24 || b.Off >= a.Off {
 			continue
 		}
 		for i := 0; i < ai; i++ {
